@@ -101,9 +101,9 @@ def run(tier, seed):
         cell = gl.cell_from_recip_metric(I["met"], c)
         if I.get("pseudo"):
             cell[1] *= (1 + 4e-8)          # b a hair longer: among exact ties the reflection with the larger |k| now comes first
-        smin, smax = gl.bounds(I["K"], I["Kmin"], c, tight=0 if (I.get("pseudo") or I.get("long")) else i % 5)
+        smin, smax = gl.bounds(I["K"], I["Kmin"], c, tight=0 if (I.get("pseudo") or I.get("long") or I.get("needle") or I.get("huge")) else i % 5)
         mod = "tools" if (i % 2 or tier == "thorough") else "laue"
-        mods = ["tools", "laue"] if (tier == "thorough" or I.get("long") or I.get("pseudo")) else [mod]
+        mods = ["tools", "laue"] if (tier == "thorough" or I.get("long") or I.get("pseudo") or I.get("needle") or I.get("huge")) else [mod]
         for m in mods:
             kw = dict(sgno=t["no"], cell_choice=t["setting"]) if rng.random() < 0.5 else dict(sgname=t["name_text"])
             for func, ostl in (("genhkl_unique", True), ("genhkl_unique", False), ("genhkl_all", True), ("genhkl_all", False)):
@@ -227,6 +227,7 @@ def run(tier, seed):
            "early_exit_instances_met": n_early, "exhaustive": False,
            "rule": "instance = (setting, conforming integer reciprocal metric, shell); genhkl_unique with and without "
                    "output_stl and genhkl_all with output_stl per instance; non-trivial = non-empty allowed set"}
+    cov["needle_cell_calls"] = c05.needle_check(v, tabs, rng, "C06")
     return v.finish("model_checking", cov, ASSUME)
 
 
